@@ -76,3 +76,23 @@ Fixpoint dels_ok (depth : nat) (ops : list hop) : bool :=
   end.
 
 End CbCache.
+
+(** The page source of the correspondence run (what the base layer of
+    harness/cb_drv.c serves; the check compares the two on probe addresses
+    before it runs the histories): 0x100-byte regions, every region whose
+    number is 3 mod 8 fails, the byte at address [a] of space [as] is
+    (a*13 + as*3 + 1) mod 256.  Defined here — not borrowed from another
+    engine — so that it changes only together with the driver. *)
+Fixpoint cb_bytes (v : N) (n : nat) : list byte :=
+  match n with
+  | O => []
+  | S n' => v :: cb_bytes ((v + 13) mod 256)%N n'
+  end.
+
+Definition cb_page_source (a_as a : N) : option (N * N * list byte) :=
+  if (W <=? a)%N then None
+  else
+    let blk := (a / 0x100)%N in
+    if (blk mod 8 =? 3)%N then None
+    else Some ((blk * 0x100)%N, 0x100%N,
+               cb_bytes ((blk * 0x100 * 13 + a_as * 3 + 1) mod 256)%N 256).
